@@ -197,14 +197,17 @@ def const_of(F, body, op):
     return None
 
 
-def collect_events(F, body, side, base_depth=0, seen=None, rb=None):
-    """Ordered events of a body (RPO, error exits excluded), closures and crate-local
-    helpers inlined at the call that runs them."""
-    if seen is None:
-        seen = set()
-    if body.key in seen:
-        return []
-    seen = seen | {body.key}
+class Inline:
+    """Marker: at this point of the sequence the events of another body (closure or crate-local helper) occur."""
+    __slots__ = ('body', 'depth', 'rb')
+
+    def __init__(self, body, depth, rb):
+        self.body, self.depth, self.rb = body, depth, rb
+
+
+def shallow_events(F, body, side):
+    """Ordered events of ONE body (RPO, error exits excluded); closures and crate-local helpers that move bytes
+    appear as Inline markers at the call that runs them."""
     depth, dom = loop_depths(body)
     errs = error_blocks(body)
     marker = SER if side == 'w' else DE
@@ -216,8 +219,7 @@ def collect_events(F, body, side, base_depth=0, seen=None, rb=None):
         if t['k'] != 'call':
             continue
         c = body.call_at(b)
-        d = base_depth + depth.get(b, 0)
-        cur_rb = rb if rb is not None else b
+        d = depth.get(b, 0)
         cls = classify_ser_call(F, body, c, side)
         if cls is not None:
             kind, ty, data = cls
@@ -225,28 +227,46 @@ def collect_events(F, body, side, base_depth=0, seen=None, rb=None):
             e.kind, e.ty, e.depth, e.call, e.body, e.data = kind, ty, d, c, body, data
             e.const = const_of(F, body, data) if (kind == 'Leb' and side == 'w') else None
             e.ctx = None
-            e.rb = cur_rb
+            e.rb = b
             evs.append(e)
             continue
-        # lazy adaptors run their closure when the iterator is consumed, not here
         if c.is_(LAZY):
             continue
-        # closures attached upstream to the iterator consumed here
         if c.is_(r'^std::iter::Iterator::(collect|sum|product|try_for_each|try_fold|for_each|fold|count|last|any|all|find|'
                  r'position|max|min|unzip)$', r'^std::iter::FromIterator::from_iter$', r'^std::iter::Extend::extend$') and c.args:
             for cb in lazy_closures(F, body, c.args[-1] if c.is_(r'extend$|from_iter$') else c.args[0]):
-                evs.extend(collect_events(F, cb, side, d + 1, seen, cur_rb))
-        # closures run eagerly by this call
+                evs.append(Inline(cb, d + 1, b))
         clos = lib.closure_args(F, c)
         if clos:
             extra = 1 if c.is_(r'^std::iter::Iterator::') else 0
             for (_i, cb, _rv) in clos:
-                evs.extend(collect_events(F, cb, side, d + extra, seen, cur_rb))
+                evs.append(Inline(cb, d + extra, b))
             continue
         cal = lib.local_callee(F, c)
         if cal is not None and ser_de_arg(body, c, marker) is not None and not c.is_(r'^%s::' % SERIALIZABLE):
-            evs.extend(collect_events(F, cal, side, d, seen, cur_rb))
+            evs.append(Inline(cal, d, b))
     return evs
+
+
+def collect_events(F, body, side, base_depth=0, seen=None, rb=None):
+    """Flat list of all events of a body with everything inlined (used for field / count rules)."""
+    if seen is None:
+        seen = set()
+    if body.key in seen:
+        return []
+    seen = seen | {body.key}
+    out = []
+    for e in shallow_events(F, body, side):
+        if isinstance(e, Inline):
+            out.extend(collect_events(F, e.body, side, base_depth + e.depth, seen, rb if rb is not None else e.rb))
+        else:
+            e2 = Ev()
+            for s in Ev.__slots__:
+                setattr(e2, s, getattr(e, s, None))
+            e2.depth = base_depth + e.depth
+            e2.rb = rb if rb is not None else e.rb
+            out.append(e2)
+    return out
 
 
 def lazy_closures(F, body, op, depth=0):
@@ -277,8 +297,8 @@ def lazy_closures(F, body, op, depth=0):
 
 # ------------------------------------------------------------ branch contexts
 def variant_arms_write(body):
-    """Blocks reached only through the arm of `match self` for each variant:
-    {variant name: set(blocks)}; None when the body does not switch on discr(*self)."""
+    """For `write` (and its helpers): blocks reached only through one arm of a `match` on an enum value that
+    comes from a parameter (self, or the Option / enum handed to a helper): {(switch block, value): blocks}."""
     arms = {}
     for b in sorted(body.live_blocks()):
         t = body.term(b)
@@ -289,11 +309,12 @@ def variant_arms_write(body):
         if d is None or d.kind != 'assign' or d.rv['k'] != 'discr':
             continue
         pl = body.through_ref(d.rv['pl'])
-        if pl['l'] != 1:
-            roots = [r for r in copy_chain_sources(body, {'cp': {'l': pl['l'], 'p': []}}, through_calls=IDENTITY_CALLS)
-                     if r[0] == 'param' and r[1] == 1]
-            if not roots:
-                continue
+        roots = [r for r in copy_chain_sources(body, {'cp': {'l': pl['l'], 'p': []}}, through_calls=IDENTITY_CALLS)
+                 if r[0] == 'param' and SER not in body.local_ty(r[1]) and DE not in body.local_ty(r[1])]
+        if not roots and not body.is_param(pl['l']):
+            continue
+        if 'ControlFlow' in body.local_ty(d.rv['pl']['l']) or 'std::result::Result' in body.local_ty(d.rv['pl']['l']):
+            continue
         for v, tgt in t['cases'] + [[None, t['else']]]:
             blocks = body.reach(tgt)
             only = set(x for x in blocks if body.edge_dominates((b, tgt), x))
@@ -323,6 +344,21 @@ def read_branches(F, body, events):
                 te, fe = fe, te
             tb = set(b for b in body.reach(te[1]) if body.edge_dominates(te, b))
             out.append(('tag==%s' % cv, tb, lebs[0], cmp_, cv))
+    # `match tag { 1 => .., 0 => .., _ => Err }`: a switch directly on the value read
+    for b in sorted(body.live_blocks()):
+        t = body.term(b)
+        if t['k'] != 'switch' or not is_place(t['d']) or len(t['cases']) < 1:
+            continue
+        l = op_local(t['d'])
+        if body.local_ty(l) not in ('u64', 'usize', 'u8', 'u32'):
+            continue
+        sl = backward_slice(body, [t['d']], follow_mutarg=False)
+        lebs = sl.has_call(r'Deserializer::<?.*read_leb128_u64$')
+        if not lebs or any(d.kind == 'assign' and d.rv['k'] == 'bin' for d in sl.rvs):
+            continue
+        for v, tgt in t['cases']:
+            tb = set(x for x in body.reach(tgt) if body.edge_dominates((b, tgt), x))
+            out.append(('tag==%s' % v, tb, lebs[0], {'op': 'Eq', 'te': (b, tgt), 'fe': (b, t['else']), 'blk': b, 'ln': t['ln']}, v))
     # presence encoded by the remaining input length (trailing optional fields)
     for cmp_ in lib.comparisons(body):
         sa = backward_slice(body, [cmp_['a']], follow_mutarg=False)
@@ -334,41 +370,48 @@ def read_branches(F, body, events):
     return out
 
 
-def sequences(F, body, side):
-    """{context label: [event signatures]} for one write or read implementation."""
-    evs = collect_events(F, body, side)
-    top = [e for e in evs if e.body is body]
+def alternatives(F, body, side, depth=0, seen=()):
+    """All alternative event-signature sequences of a body: one per branch context (variant arm on write; tag /
+    remaining-length branch on read), inlined bodies contributing the cross product of their own alternatives."""
+    if body.key in seen or depth > 6:
+        return [[]]
+    seen = tuple(seen) + (body.key,)
+    evs = shallow_events(F, body, side)
     if side == 'w':
-        arms = variant_arms_write(body)
-        if not arms:
-            return {'*': [e.sig() for e in evs]}, evs
-        res = {}
-        for (k, blocks) in arms.items():
-            seq = []
-            for e in evs:
-                inarm = e.rb in blocks
-                inany = any(e.rb in bl for bl in arms.values())
-                if inarm or not inany:
-                    seq.append(e.sig())
-            if seq:
-                res['variant#%s' % (k[1],)] = seq
-        return res, evs
-    brs = read_branches(F, body, evs)
-    if not brs:
-        return {'*': [e.sig() for e in evs]}, evs
-    res = {}
-    allb = [x[1] for x in brs]
-    for (label, tb, leb, cmp_, cv) in brs:
-        seq = []
+        arms = variant_arms_write(body) or {}
+        ctxs = [('variant#%s' % (k[1],), bl, None, None) for k, bl in arms.items()]
+    else:
+        ctxs = [(label, tb, leb, cv) for (label, tb, leb, cmp_, cv) in read_branches(F, body, evs)]
+    if not ctxs:
+        ctxs = [('*', None, None, None)]
+    allb = [c[1] for c in ctxs if c[1] is not None]
+    out = []
+    for (label, blocks, leb, cv) in ctxs:
+        seqs = [[]]
         for e in evs:
-            inany = any(e.rb in bl for bl in allb)
-            if e.rb in tb or not inany:
+            if blocks is not None:
+                inany = any(e.rb in bl for bl in allb)
+                if not (e.rb in blocks or not inany):
+                    continue
+            if isinstance(e, Inline):
+                sub = alternatives(F, e.body, side, depth + 1, seen)
+                sub = [[(k, t, d + e.depth, c) for (k, t, d, c) in a] for a in sub]
+                seqs = [s + a for s in seqs for a in sub][:48]
+            else:
                 s = e.sig()
                 if e.kind == 'Leb' and leb is not None and e.call is leb:
                     s = (s[0], s[1], s[2], cv)
-                seq.append(s)
-        res[label] = seq
-    return res, evs
+                seqs = [x + [s] for x in seqs]
+        for s in seqs:
+            if s and s not in out:
+                out.append(s)
+    return out or [[]]
+
+
+def sequences(F, body, side):
+    """{label: [event signatures]} for one write or read implementation (all alternatives)."""
+    alts = alternatives(F, body, side)
+    return {'alt%d' % i: a for i, a in enumerate(alts)}, collect_events(F, body, side)
 
 
 def root_block_of(F, root, e):
